@@ -436,6 +436,11 @@ func (g *Gen) Target() *GConf {
 				seen["vrf "+a] = true
 				c.Routes = append(c.Routes, fmt.Sprintf("ip route vrf V1 %s 255.255.255.0 10.9.%d.%d", a, g.Rng.Intn(3), 1+g.Rng.Intn(200)))
 			}
+			if g.Rng.Intn(2) == 0 {
+				g.vrfTwin(c)
+			}
+		} else if g.Kind == "ios" && g.Small && g.Rng.Intn(4) == 0 {
+			g.vrfTwin(c)
 		}
 	}
 	if g.Kind == "ios" && !g.Small && c.VRF == "" && len(c.Intfs) > 1 && g.Rng.Intn(3) == 0 {
@@ -586,6 +591,14 @@ func renameInLines(a *GACL, old, new string) {
 		a.Lines[i] = strings.ReplaceAll(l+" ", "object-group "+old+" ", "object-group "+new+" ")
 		a.Lines[i] = strings.TrimSuffix(a.Lines[i], " ")
 	}
+}
+
+// vrfTwin adds routes of two managed VRFs: the cover route of V2 includes
+// a /16 of V1 (see edit route-vrf-twin).
+func (g *Gen) vrfTwin(c *GConf) {
+	c.Routes = append(c.Routes,
+		fmt.Sprintf("ip route vrf V1 10.%d.0.0 255.255.0.0 10.9.1.%d", 50+g.Rng.Intn(150), 1+g.Rng.Intn(200)),
+		fmt.Sprintf("ip route vrf V2 10.0.0.0 255.0.0.0 10.9.2.%d", 1+g.Rng.Intn(200)))
 }
 
 // Device derives the device side from target t.
@@ -1041,6 +1054,26 @@ func (g *Gen) Device(t *GConf, nedits int, unmanaged bool) (*GConf, []string) {
 			panic("generator: access-list " + a.Name + " defined twice: " + strings.Join(ops, ","))
 		}
 		names[a.Name] = true
+	}
+	// Two VRFs route the same /16 on the device: V1's route gets another
+	// hop, V2's is covered by the target's 10.0.0.0/8 of V2 instead.
+	{
+		twin, cover := -1, -1
+		for i, r := range d.Routes {
+			if strings.HasPrefix(r, "ip route vrf V1 10.") && strings.Contains(r, ".0.0 255.255.0.0 10.9.1.") {
+				twin = i
+			}
+			if strings.HasPrefix(r, "ip route vrf V2 10.0.0.0 255.0.0.0 ") {
+				cover = i
+			}
+		}
+		if twin >= 0 && cover >= 0 && g.Rng.Intn(2) == 0 {
+			tw, cw := strings.Fields(d.Routes[twin]), strings.Fields(d.Routes[cover])
+			d.Routes[cover] = fmt.Sprintf("ip route vrf V2 %s 255.255.0.0 %s", tw[4], cw[len(cw)-1])
+			tw[len(tw)-1] = fmt.Sprintf("10.8.0.%d", 1+g.Rng.Intn(200))
+			d.Routes[twin] = strings.Join(tw, " ")
+			ops = append(ops, "route-vrf-twin")
+		}
 	}
 	// A device never holds the same route line twice.
 	seenRoute := map[string]bool{}
